@@ -3,7 +3,7 @@ package main
 func init() {
 	register(&PropDef{
 		ID: "C17", Patterns: []string{"./interp"}, Specs: []string{"build"},
-		Covered: []string{"contains", "buildTagOk", "buildOptionOk", "buildLineOk", "skipFile", "goMinorVersion", "knownOs/knownArch tables", "buildOk: constraints evaluated in the given context, a rejected file adds no yaegi:tags", "where selection is applied: parse consults buildOk before the Go parser and before adding tags; importSrc reads and parses only files skipFile kept"},
+		Covered: []string{"contains", "buildTagOk", "buildOptionOk", "buildLineOk", "skipFile", "goMinorVersion", "knownOs/knownArch tables", "buildOk: constraints evaluated in the given context, a rejected file adds no yaegi:tags", "where selection is applied: parse consults buildOk before the Go parser and before adding tags; importSrc reads and parses only files skipFile kept", "setYaegiTags visits and sets every tag of a yaegi:tags line"},
 		Uncov:   []string{"go/parser's comment groups (opaque)"},
 		Extra: func(r *Run) {
 			r.tableSuperset("interp", "knownOs", "knownOSspec")
@@ -55,14 +55,14 @@ func init() {
 	register(&PropDef{
 		ID: "C09", Patterns: []string{"./interp"},
 		Extra:   func(r *Run) { r.idWriters(); r.blockingOps(); r.contextWatchers() },
-		Covered: []string{"newFrame/clone/stop contracts", "id inheritance at every newFrame call site", "run-id gate before every exec closure application in both runCfg loops", "writers of frame.id / Interpreter.id enumerated", "recv/recv2/send/rangeChan: the blocking reflect.Select races f.done at index 0 and the closure returns nil when it is chosen", "_select: the per-execution case vector ends with the frame's done case, the operand loop leaves it alone, the closure stops when it is chosen"},
+		Covered: []string{"newFrame/clone/stop contracts", "id inheritance at every newFrame call site", "run-id gate before every exec closure application in both runCfg loops", "writers of frame.id / Interpreter.id enumerated", "recv/recv2/send/rangeChan: the blocking reflect.Select races f.done at index 0 and the closure returns nil when it is chosen", "_select: the per-execution case vector ends with the frame's done case, the operand loop leaves it alone, the closure stops when it is chosen", "EvalWithContext / EvalPathWithContext / ExecuteWithContext switch to cancellable channel operations"},
 		Uncov:   []string{"promptness (time) and goroutine exit", "interleavings of stop with a running frame"},
 		Trusted: trusted,
 	})
 	register(&PropDef{
 		ID: "C10", Patterns: []string{"./interp"},
 		Extra:   func(r *Run) { r.idWriters() },
-		Covered: []string{"Execute refreshes the root frame id before any run", "resizeFrame leaves ids untouched", "entry obligation of host-callable wrappers (expected findings)", "run-id gate of runCfg in both loops (frame currentness demanded from callers only)", "Interpreter.run: the frame listens to the done channel of the current run", "stop leaves an open done channel for later evaluations", "a cancelled receive leaves its destination alone", "Symbols binds wrappers to the root frame"},
+		Covered: []string{"Execute refreshes the root frame id before any run", "resizeFrame leaves ids untouched", "entry obligation of host-callable wrappers (expected findings)", "run-id gate of runCfg in both loops (frame currentness demanded from callers only)", "Interpreter.run: the frame listens to the done channel of the current run", "stop leaves an open done channel for later evaluations", "a cancelled receive leaves its destination alone", "Symbols binds wrappers to the root frame", "a cancelled frame still issues all its deferred calls"},
 		Uncov:   []string{"whole histories of evaluations; symbol tables after a cancelled compile phase"},
 		Trusted: trusted,
 	})
@@ -108,7 +108,7 @@ func init() {
 	register(&PropDef{
 		ID: "C03", Patterns: []string{"./interp"}, Specs: []string{"ops", "consts"},
 		Extra: func(r *Run) { r.dispatchTables() },
-		Covered: []string{"representableConst for every integer kind and every integer constant", "constant folders: untyped operands fold to go/constant's operation with the spec token (QUO_ASSIGN exactly for untyped integer results); typed operands compute the kind's operation (every branch: int, float, complex, string; bitwise and shift folders in bit-vector variants)", "typed constant overflow must be rejected (known finding)", "representableConst for float, complex, string and bool kinds", "convertConst / convertConstantValue / genValueAs: single rounding per target kind, no refusal of representable constants", "representable / convertUntyped imply representableConst; return statement, comparison operand and send statement (finding) demand representability", "constant builtins len/complex/real/imag", "assignment and index rules of typecheck.go (shared with C12)"},
+		Covered: []string{"representableConst for every integer kind and every integer constant", "constant folders: untyped operands fold to go/constant's operation with the spec token (QUO_ASSIGN exactly for untyped integer results); typed operands compute the kind's operation (every branch: int, float, complex, string; bitwise and shift folders in bit-vector variants)", "typed constant overflow must be rejected (known finding)", "representableConst for float, complex, string and bool kinds", "convertConst / convertConstantValue / genValueAs: single rounding per target kind, no refusal of representable constants", "representable / convertUntyped imply representableConst; return statement, comparison operand and send statement (finding) demand representability", "constant builtins len/complex/real/imag", "default type of untyped constants (by value kind, else by category)", "comparison of two untyped constants is folded with go/constant.Compare", "assignment and index rules of typecheck.go (shared with C12)"},
 		Uncov:   []string{"rounding inside go/constant (its functions are uninterpreted)", "iota bookkeeping and implicit repetition (ast/gta/cfg walks)", "literal parsing", "the remaining places where cfg gives a constant a type (composite literal elements, map keys, call arguments: they go through check.assignment, which is under contract, but the call sites are not)"},
 		Trusted: []string{"T1 go toolchain, solvers", "T2 govc", "T4 go/constant computes exact constant arithmetic (BinaryOp/UnaryOp/Shift/ToInt uninterpreted functions of the token; BitLen(x) <= k iff |x| < 2^k)", "T3 reflect.Value model"},
 	})
@@ -128,8 +128,8 @@ func init() {
 	register(&PropDef{
 		ID: "C12", Patterns: []string{"./interp"},
 		Extra:   func(r *Run) { r.compilePhaseEffects(); r.opTables() },
-		Covered: []string{"eval reaches Execute only after compileSrc returned no error", "compile-phase functions reach no execution function in the static call graph (importSrc reported separately)", "exec closures are applied only at run time", "assignableTo: identical types accepted, distinct defined types rejected", "comparison: comparable / ordered / nil rules", "convertibleTo: exactly the admitted conversions", "op / shift / conversion / assignment / index / typeAssertionExpr / sliceExpr rules", "operator admissibility tables (ground)", "binaryExpr: operands of arithmetic have identical types", "unaryExpr / starExpr / addressExpr / arrayLitExpr / mapLitExpr / structLitExpr / argument / arguments rules", "call sites in cfg.go: every rule is consulted with the node the specification names and its error is the node's error (composite literals, assignments, address, inc/dec, slice, dereference, type assertion, index, call/builtin/conversion, binary, unary); instantiation errors are reported"},
-		Uncov:   []string{"the remaining type rules of typecheck.go (builtin, structBinLitExpr, range, return)", "implements against the Go spec", "name resolution errors in cfg.go/gta.go", "calls through function values and interfaces in the call graph"},
+		Covered: []string{"eval reaches Execute only after compileSrc returned no error", "compile-phase functions reach no execution function in the static call graph (importSrc reported separately)", "exec closures are applied only at run time", "assignableTo: identical types accepted, distinct defined types rejected", "comparison: comparable / ordered / nil rules", "convertibleTo: exactly the admitted conversions", "op / shift / conversion / assignment / index / typeAssertionExpr / sliceExpr rules", "operator admissibility tables (ground)", "binaryExpr: operands of arithmetic have identical types", "unaryExpr / starExpr / addressExpr / arrayLitExpr / mapLitExpr / structLitExpr / argument / arguments rules", "call sites in cfg.go: every rule is consulted with the node the specification names and its error is the node's error (composite literals, assignments, address, inc/dec, slice, dereference, type assertion, index, call/builtin/conversion, binary, unary); instantiation errors are reported", "builtin rule (counts, spread, operand kinds), host struct literals, boolean conditions of for/if, undefined identifiers, result counts and assignability of return, send statements (direction, assignability)", "representableConst (shared with C03)"},
+		Uncov:   []string{"selector expressions (fields, methods), range clauses, labels", "implements against the Go spec", "name resolution errors in cfg.go/gta.go", "calls through function values and interfaces in the call graph"},
 		Trusted: []string{"T1 go toolchain, solvers", "T2 govc", "itype.equals/underlying/id are pure functions of their receiver"},
 	})
 }
@@ -138,7 +138,7 @@ func init() {
 	register(&PropDef{
 		ID: "C15", Patterns: []string{"./interp"},
 		Extra:   func(r *Run) { r.phaseOrder(); r.mainLast(); r.depsThroughFunctions() },
-		Covered: []string{"getVarDependencies records every reference to another package-level variable in the initialiser (all positions except selector field names)", "genGlobalVarDecl: canInit is 'all dependencies already emitted'", "phase order root -> variables -> inits -> main in Execute and importSrc", "importSrc evaluates a package at most once", "only dependencies of the same batch block a declaration", "exactly the receiver-less functions named init are collected, appended in walk order", "main is put on the run list once, outside every loop, after every append of init functions (importSrc, CompileAST)"},
+		Covered: []string{"getVarDependencies records every reference to another package-level variable in the initialiser (all positions except selector field names)", "genGlobalVarDecl: canInit is 'all dependencies already emitted'", "phase order root -> variables -> inits -> main in Execute and importSrc", "importSrc evaluates a package at most once", "only dependencies of the same batch block a declaration", "exactly the receiver-less functions named init are collected, appended in walk order", "main is put on the run list once, outside every loop, after every append of init functions (importSrc, CompileAST)", "the symbol of an uninitialised package variable designates its declaration node (what the ordering works on)"},
 		Uncov:   []string{"dependencies through the bodies of functions and methods (known finding)", "that the emitted order is the earliest-ready order of the Go spec (whole-loop invariant not attempted)"},
 		Trusted: []string{"T1 go toolchain, solvers", "T2 govc", "scope.lookup and childPos are pure functions"},
 	})
@@ -154,7 +154,7 @@ func init() {
 	register(&PropDef{
 		ID: "C18", Patterns: []string{"./extract"},
 		Extra:   func(r *Run) { r.extractShape() },
-		Covered: []string{"fixConst: exact textual value and token per constant kind, helper imports recorded", "classification switch of genContent: constants and functions by value, variables by address, types as types, generic objects skipped (shape obligations)", "qualifier: every foreign package printed is imported", "constraint-interface test on the complete method set", "wrapper method strings: parameters, variadic last parameter, arguments, results, receiver qualification", "genBuildTags: go1.N, with the exclusion of go1.N+1 unless N is the newest known release", "float constants printed with at least one decimal digit per mantissa bit"},
+		Covered: []string{"fixConst: exact textual value and token per constant kind, helper imports recorded", "classification switch of genContent: constants and functions by value, variables by address, types as types, generic objects skipped (shape obligations)", "qualifier: every foreign package printed is imported", "constraint-interface test on the complete method set", "wrapper method strings: parameters, variadic last parameter, arguments, results, receiver qualification", "genBuildTags: go1.N, with the exclusion of go1.N+1 unless N is the newest known release", "float constants printed with at least one decimal digit per mantissa bit", "every untyped constant (IsUntyped bit) goes through fixConst"},
 		Uncov:   []string{"template rendering and format.Source", "that the output compiles for every package", "float constants are printed from a big.Float (see C14 finding)"},
 		Trusted: []string{"T1 go toolchain, solvers", "T2 govc", "fmt.Sprintf is a pure function of its arguments; go/constant ExactString/String are distinct pure functions"},
 	})
@@ -172,8 +172,8 @@ func init() {
 func init() {
 	register(&PropDef{
 		ID: "C07", Patterns: []string{"./interp"},
-		Covered: []string{"script calling a host function from a multi-value assignment: each result is stored in a new slot for a newly declared variable and in place for a redeclared or assigned one (slot identity, for every position)", "plain host call: result i is stored in slot findex+i, func results replace the slot, no other slot is touched", "frame ids of wrapper frames (shared with C09/C10)", "callBin argument vectors (variadic spread, interface wrapping by the first implemented interface of getMapType)", "genFunctionWrapper: host arguments land in the parameter slots, results are read from the result slots", "genValueRecv: a pointer is followed at every step of an embedded-field path", "Symbols: wrappers and variables are bound to the root frame", "method values bind their receiver when evaluated (value receivers copied)"},
-		Uncov:   []string{"getFunc's result slice", "genInterfaceWrapper", "Execute's wrapping of function results, Use table copy", "reflect.Call itself"},
+		Covered: []string{"script calling a host function from a multi-value assignment: each result is stored in a new slot for a newly declared variable and in place for a redeclared or assigned one (slot identity, for every position)", "plain host call: result i is stored in slot findex+i, func results replace the slot, no other slot is touched", "frame ids of wrapper frames (shared with C09/C10)", "callBin argument vectors (variadic spread, interface wrapping by the first implemented interface of getMapType)", "genFunctionWrapper: host arguments land in the parameter slots, results are read from the result slots", "genValueRecv: a pointer is followed at every step of an embedded-field path", "Symbols: wrappers and variables are bound to the root frame", "getWrapper: composed wrappers are chosen by the complete method set", "method values bind their receiver when evaluated (value receivers copied)"},
+		Uncov:   []string{"getFunc's result slice", "genInterfaceWrapper beyond the wrapper choice", "Execute's wrapping of function results, Use table copy", "reflect.Call itself"},
 		Trusted: []string{"T1 go toolchain, solvers", "T2 govc", "T3 reflect.Value model", "value functions are pure lookups; destinations of one assignment are distinct slots (assumed)"},
 	})
 }
@@ -182,7 +182,7 @@ func init() {
 	register(&PropDef{
 		ID: "C11", Patterns: []string{"./interp"},
 		Extra:   func(r *Run) { r.phaseOrder(); r.frameLayoutResync() },
-		Covered: []string{"resizeFrame keeps every existing global slot (same location) and only grows the frame", "Execute phase order", "the importer's frame layout is re-synchronised after every successful source import", "source name of an unnamed piece", "main scheduled only by the piece that defines it", "multi-value definitions stay redeclarable across pieces", "nested := (known finding) and top-level comma-ok definitions (known finding)", "gta: every name of a package-level definition gets a global symbol"},
+		Covered: []string{"resizeFrame keeps every existing global slot (same location) and only grows the frame", "Execute phase order", "the importer's frame layout is re-synchronised after every successful source import", "source name of an unnamed piece", "main scheduled only by the piece that defines it", "multi-value definitions stay redeclarable across pieces", "nested := (known finding) and top-level comma-ok definitions (known finding)", "gta: every name of a package-level definition gets a global symbol; `var x T` symbols designate the declaration", "cfg: retyping a symbol updates the frame layout for every slot"},
 		Uncov:   []string{"equality of outputs across cuts of a program", "incremental parse classification (ast.go parse / wrapInMain)", "redefinition of functions and types", "Compile/Execute vs Eval equivalence"},
 		Trusted: []string{"T1 go toolchain, solvers", "T2 govc"},
 	})
